@@ -40,6 +40,28 @@ def spec(adds, qhosts):
                 match=[any(covers(k, norm_labels(q)) for k in ks) for q in qhosts])
 
 
+def impl_interleaved(adds, urls, qhosts):
+    """One set object, observed (len, iteration, every match) before the first add and after every add: the first
+    prefix of the history on which the object is not the set of hosts at / under the domains added so far."""
+    from ural.classes.hostname_trie_set import HostnameTrieSet
+
+    t = HostnameTrieSet()
+    for i in range(len(adds) + 1):
+        if i:
+            t.add(adds[i - 1])
+        m = []
+        for u in urls:
+            try:
+                m.append(t.match(u))
+            except Exception as e:  # noqa
+                m.append(Exc(type(e).__name__))
+        io = dict(len=len(t), iter=sorted(t), match=m)
+        sp = spec(adds[:i], qhosts)
+        if io != sp:
+            return i, io, sp
+    return None
+
+
 def impl(adds, urls):
     from ural.classes.hostname_trie_set import HostnameTrieSet
 
@@ -104,6 +126,16 @@ def run(res, tier, rng):
         sp = spec(adds, qs)
         if len(set(adds)) >= 2:
             nontriv.add(repr(adds))
+        if io == sp and len(adds) >= 2:
+            # the same history once more on ONE object that is queried between the adds
+            bad_prefix = impl_interleaved(adds, urls, qs)
+            if bad_prefix is not None:
+                i, io_i, sp_i = bad_prefix
+                badf = [f for f in sp_i if io_i[f] != sp_i[f]]
+                idx = [j for j in range(len(qs)) if io_i["match"][j] != sp_i["match"][j]][:5]
+                res.violation("property", "HostnameTrieSet queried between its adds differs from the set of hosts at/under the domains added so far on: " + ",".join(badf),
+                              input=dict(adds=adds[:i], queried_after_each_add=True),
+                              detail={"urls": [urls[j] for j in idx], "impl": [io_i["match"][j] for j in idx], "expected": [sp_i["match"][j] for j in idx]})
         if io != sp:
             bad = [f for f in sp if io[f] != sp[f]]
             detail = {}
@@ -138,7 +170,7 @@ def run(res, tier, rng):
                 "match on all 30 hostnames of depth <= 4 embedded in 9 URL forms (bare, scheme+path+query, port, userinfo, '//', and slash-less port / userinfo / query / fragment); "
                 "%d seeded random histories over realistic labels (upper case, punycode, IDN, surrounding whitespace); implementation compared with "
                 "the property oracle (label-suffix cover on normalised labels) and with the extracted model; plus regex-level and urllib/utils "
-                "leaf correspondence. Non-trivial = distinct history with >= 2 distinct hostnames." % (depth, nrand))
+                "leaf correspondence; every history is replayed on one object observed (len, iteration, all matches) before the first and after every add. Non-trivial = distinct history with >= 2 distinct hostnames." % (depth, nrand))
     res.sample(dict(adds=cases[500][0], observed=impl(cases[500][0], urls_all[500][:6]), urls=urls_all[500][:6]))
     res.sample(dict(adds=cases[-1][0], urls=urls_all[-1][:4]))
     res.theorems = THEOREMS
